@@ -311,6 +311,9 @@ class amg {
             return b;
         }
     private:
+#ifdef AMGCL_VERIF
+        friend struct amgcl::verif::access;
+#endif
         struct level {
             size_t m_rows, m_nonzeros;
 
@@ -521,18 +524,39 @@ class amg {
                 if (lvl->solve) {
                     AMGCL_TIC("coarse");
                     (*lvl->solve)(rhs, x);
+#ifdef AMGCL_VERIF
+                    AMGCL_VERIF_EVENT("amg.coarse", &*lvl, (long)verif::id(rhs), (long)verif::id(x), 0, 0);
+#endif
                     AMGCL_TOC("coarse");
                 } else {
                     AMGCL_TIC("relax");
+#ifdef AMGCL_VERIF
+                    for(size_t i = 0; i < prm.npre;  ++i) {
+                        lvl->relax->apply_pre(*lvl->A, rhs, x, *lvl->t);
+                        AMGCL_VERIF_EVENT("amg.relax_pre", &*lvl, (long)verif::id(rhs), (long)verif::id(x), (long)verif::id(*lvl->t), 0);
+                    }
+                    for(size_t i = 0; i < prm.npost; ++i) {
+                        lvl->relax->apply_post(*lvl->A, rhs, x, *lvl->t);
+                        AMGCL_VERIF_EVENT("amg.relax_post", &*lvl, (long)verif::id(rhs), (long)verif::id(x), (long)verif::id(*lvl->t), 0);
+                    }
+#else
                     for(size_t i = 0; i < prm.npre;  ++i) lvl->relax->apply_pre(*lvl->A, rhs, x, *lvl->t);
                     for(size_t i = 0; i < prm.npost; ++i) lvl->relax->apply_post(*lvl->A, rhs, x, *lvl->t);
+#endif
                     AMGCL_TOC("relax");
                 }
             } else {
                 for (size_t j = 0; j < prm.ncycle; ++j) {
                     AMGCL_TIC("relax");
+#ifdef AMGCL_VERIF
+                    for(size_t i = 0; i < prm.npre; ++i) {
+                        lvl->relax->apply_pre(*lvl->A, rhs, x, *lvl->t);
+                        AMGCL_VERIF_EVENT("amg.relax_pre", &*lvl, (long)verif::id(rhs), (long)verif::id(x), (long)verif::id(*lvl->t), 0);
+                    }
+#else
                     for(size_t i = 0; i < prm.npre; ++i)
                         lvl->relax->apply_pre(*lvl->A, rhs, x, *lvl->t);
+#endif
                     AMGCL_TOC("relax");
 
                     backend::residual(rhs, *lvl->A, x, *lvl->t);
@@ -545,8 +569,15 @@ class amg {
                     backend::spmv(math::identity<scalar_type>(), *lvl->P, *nxt->u, math::identity<scalar_type>(), x);
 
                     AMGCL_TIC("relax");
+#ifdef AMGCL_VERIF
+                    for(size_t i = 0; i < prm.npost; ++i) {
+                        lvl->relax->apply_post(*lvl->A, rhs, x, *lvl->t);
+                        AMGCL_VERIF_EVENT("amg.relax_post", &*lvl, (long)verif::id(rhs), (long)verif::id(x), (long)verif::id(*lvl->t), 0);
+                    }
+#else
                     for(size_t i = 0; i < prm.npost; ++i)
                         lvl->relax->apply_post(*lvl->A, rhs, x, *lvl->t);
+#endif
                     AMGCL_TOC("relax");
                 }
             }
